@@ -945,7 +945,7 @@ def make_program(rng, idx, clean, backend, ncalls):
         for c in p.calls:
             st = spec_tokens(c + ".")
             r = sp.resolve(st, 0)
-            if r and r['kind'] == 'call' and r['alias'].fn.ret == 'Wahrheitswert' and r['end'] == len(st) - 1:
+            if r and r['kind'] == 'call' and all(a.fn.ret == 'Wahrheitswert' for a, _ in r['best']) and r['end'] == len(st) - 1:   # on a tie every admissible callee must be a Wahrheitswert
                 c = "XAUSW (" + c + ")"
             wrapped.append(c)
         p.calls = wrapped
